@@ -86,3 +86,68 @@ func H_C10() {
 	}
 	vReach("c10-done")
 }
+
+// H_C10N: node-count / shard-count arithmetic. n distinct symbolic keys (n forked, 0..maxitems) in one epoch, visited
+// on the latest snapshot with shards 1..maxshards and concurrency 1..maxconc, optionally with a callback error.
+func H_C10N() {
+	cfg, c := vConfig()
+	db := NewWithConfig(cfg)
+	ws := vWriters(db, 1)
+	n := vRange("nitems", 0, 0, vBound("maxitems"))
+	var g vSetModel
+	prev := -1
+	for i := 0; i < n; i++ {
+		k := vByte("key", i)
+		vAssume(int(k) > prev)
+		prev = int(k)
+		ws[0].Put2(c.item(k, byte(i)))
+		g.put(int(k), c.val(byte(i)))
+	}
+	s, _ := db.NewSnapshot()
+	shards := vRange("shards", 0, 1, vBound("maxshards"))
+	conc := vRange("conc", 0, 1, vBound("maxconc"))
+	failAt := vRange("failat", 0, -1, vBound("failrange"))
+	var logK, logS [12]int
+	nlog := 0
+	calls := 0
+	cb := func(itm *Item, shard int) error {
+		k, _, ok := c.decode(itm.Bytes())
+		if !ok {
+			vFail("visitor item bytes have an unexpected shape")
+		}
+		if calls == failAt {
+			calls++
+			return fmt.Errorf("injected")
+		}
+		calls++
+		if nlog >= 12 {
+			vFail("visitor delivered more items than exist")
+		}
+		logK[nlog], logS[nlog] = k, shard
+		nlog++
+		return nil
+	}
+	err := db.Visitor(s, cb, shards, conc)
+	if failAt >= 0 && calls > failAt {
+		vAssert(err != nil, "Visitor returns an error when a callback failed")
+		vReach("callback-error-injected")
+	} else {
+		vAssert(err == nil, "Visitor returns nil when no callback failed")
+		vAssert(nlog == n, "every item is delivered exactly once over all shards")
+		for a := 0; a < nlog; a++ {
+			vAssert(g.has(logK[a]), "delivered item is in the snapshot")
+			for b := a + 1; b < nlog; b++ {
+				vAssert(logK[a] != logK[b], "no item is delivered twice")
+				if logS[a] <= logS[b] {
+					vAssert(logK[a] < logK[b], "ascending within a shard and across ordered shards")
+				} else {
+					vAssert(logK[a] > logK[b], "every item of shard i precedes every item of shard i+1")
+				}
+			}
+		}
+	}
+	if shards > n {
+		vReach("more-shards-than-items")
+	}
+	vReach("c10n-done")
+}
